@@ -242,6 +242,11 @@ def build_filter(spec, blocks):
 
 CTL_NAMES = ('c1', 'c2')
 ENV_NAMES = CTL_NAMES + ('src',)
+CBLOCK_NAMES = ('nb', 'nn')     # combinational blocks (scenarios with 'cblock'): not src, not nb
+
+
+class StopScript(Exception):
+    pass
 
 
 def run_impl(scn):
@@ -253,6 +258,7 @@ def run_impl(scn):
     live = scn.get('live')
     blocks, filters, events = {}, {}, {}
     plog, taplog = [], []
+    ctor_error = []
 
     def env_line(name, val):
         lines.append(f'filters env {name} {enc(val)}')
@@ -266,8 +272,25 @@ def run_impl(scn):
 
     def define_all():
         for fid, spec in scn['defs']:
-            filters[fid] = build_filter(spec, blocks)
             lines.append(spec_line(fid, spec))
+            if scn.get('cblock'):
+                # constructors that check the type of their control block (given as an object: at once)
+                try:
+                    filters[fid] = build_filter(spec, blocks)
+                except Exception as err:
+                    trace.append('err ' + err_kind(err))
+                    results.append(('def', fid, err_kind(err)))
+                    continue
+                trace.append('ok')
+                results.append(('def', fid, None))
+                continue
+            try:
+                filters[fid] = build_filter(spec, blocks)
+            except Exception as err:
+                # a constructor that must not fail did: recorded (the model answers `ok`), the script ends here
+                trace.append('err ' + err_kind(err))
+                ctor_error.append((fid, spec, f'{type(err).__name__}: {err}'))
+                raise StopScript from None
             trace.append('ok')
 
     def do_call(fid, jdata):
@@ -321,8 +344,19 @@ def run_impl(scn):
         for name in ENV_NAMES:
             env_line(name, blocks[name].output)
             results.append(('env0', name, blocks[name].output))
-        define_all()
+        for name in CBLOCK_NAMES if scn.get('cblock') else ():
+            lines.append(f'filters kind {name} c')
+            trace.append('ok')
+            env_line(name, blocks[name].output)
+            results.append(('env0', name, blocks[name].output))
+        try:
+            define_all()
+        except StopScript:
+            return
         for step in scn['steps']:
+            need = [step[1]] if step[0] == 'call' else step[1] if step[0] == 'send' else []
+            if any(f not in filters for f in need):
+                continue        # its constructor failed (recorded at the `def` line)
             if step[0] == 'call':
                 do_call(step[1], step[2])
             elif step[0] == 'send':
@@ -386,6 +420,9 @@ def run_impl(scn):
             if phase != 'init' and init is edzed.UNDEF:
                 raise ValueError('an uninitialised control block needs phase init')
             blocks[name] = edzed.Input(name, initdef=init)
+        if scn.get('cblock'):
+            blocks['nb'] = edzed.Not('nb').connect(blocks['src'])
+            blocks['nn'] = edzed.Not('nn').connect(blocks['nb'])
         if live is not None:
             blocks['tap'] = Tap('tap', log=taplog)
             define_all()
@@ -417,7 +454,13 @@ def run_impl(scn):
             script()
 
     sim = Sim()
-    sim.run(build, drive)
+    try:
+        sim.run(build, drive)
+    except StopScript:
+        pass
+    if ctor_error:
+        return {'lines': lines, 'trace': trace, 'results': results, 'tags': [f'kind={scn["kind"]}', 'ctor-error'],
+                'nontrivial': False, 'ctor_error': ctor_error[0]}
     if sim.init_error is not None and not (live is not None and results and results[-1][0] == 'live-err'):
         if live is not None and taplog:
             # a filter raised while the initial output event of src2 was delivered
@@ -624,6 +667,9 @@ def same(a, b):
 
 def oracle(scn, res):
     out = []
+    if res.get('ctor_error'):
+        fid, spec, what = res['ctor_error']
+        return [{'clause': 'constructor', 'what': f'constructing the filter {spec} failed: {what}'}]
     specs = dict((fid, spec) for fid, spec in scn['defs'])
     refs = {fid: make_ref(spec) for fid, spec in scn['defs']}
     env = {name: dec(scn.get('ctl', {}).get(name, U)) for name in CTL_NAMES}
@@ -682,6 +728,18 @@ def oracle(scn, res):
         if r is None or r[0] != 'env0':
             return [{'clause': 'harness', 'what': f'no initial control output: {r}'}]
         env[r[1]] = r[2]
+    if scn.get('cblock'):
+        for name in CBLOCK_NAMES:
+            r = next(it, None)
+            env[r[1]] = r[2]
+        # docs/filters.rst: IfOutput(control_block: str | Block), NotIfInitialized(control_block: str | SBlock)
+        for fid, spec in scn['defs']:
+            r = next(it, None)
+            must_fail = spec[0] == 'ifnotinit' and spec[1] in CBLOCK_NAMES
+            if r is None or r[0] != 'def' or (r[2] is not None) != must_fail or (must_fail and r[2] != 'TypeError'):
+                bad('control_block_type', f'constructing {spec}: {r}, expected '
+                    + ('a TypeError (not a sequential block)' if must_fail else 'success'))
+                return out
     for step in steps:
         r = next(it, None)
         if r is None:
@@ -879,7 +937,7 @@ def chain_scenarios(rng, tier):
             return [k, rng.choice(keys), rng.choice(keys)]
         if k in ('del', 'permit'):
             return [k, rng.sample(keys, rng.randint(0, 4))]
-        return [k, rng.choice(keys), rng.choice(MODFNS + [['inc', 0.5], ['const', U], ['raise', 'ValueError']])]
+        return [k, rng.choice(keys), rng.choice(MODFNS + [['inc', 0.5], ['const', U], ['const', None], ['raise', 'ValueError']])]
     for _ in range(400 if tier == 'quick' else 3000):
         chains = [[rop() for _ in range(rng.randint(1, 5))] for _ in range(12)]
         dicts = [{key: rng.choice(vals) for key in rng.sample(keys, rng.randint(0, 5))} for _ in range(6)]
@@ -989,6 +1047,17 @@ def ctrl_scenarios(rng, tier):
                'defs': defs, 'steps': steps}
 
 
+def reg_scenarios():
+    """control blocks that are combinational: IfOutput takes any block, IfNotIitialized refuses them"""
+    defs = [['o', ['ifout', 'nb']], ['o2', ['ifout', 'nn']], ['bad', ['ifnotinit', 'nb']], ['bad2', ['ifnotinit', 'nn']],
+            ['i', ['ifnotinit', 'c1']], ['o3', ['ifout', 'c1']],
+            ['x', ['edit', [['addout', 'k', 'nb'], ['addout', 'a', 'nn']]]]]
+    probe = [['call', 'o', {'a': 1}], ['send', ['o'], {'a': 1}], ['call', 'o2', {}], ['send', ['o2', 'x'], {'v': 0}],
+             ['send', ['i', 'o2'], {}], ['call', 'x', {'a': 0}], ['send', ['o3', 'o2'], {}]]
+    for c1 in (0, 1):
+        yield {'kind': 'ctrl', 'phase': 'run', 'cblock': True, 'ctl': {'c1': c1, 'c2': 0}, 'defs': defs, 'steps': list(probe)}
+
+
 LIVE_FILTERS = [
     ['edge', '1', '-', '-', '-'], ['edge', '1', '-', '0', '-'], ['edge', '-', '1', '-', '-'], ['edge', '-', '1', '-', '1'],
     ['edge', '1', '1', 'n', '1'], ['nfu'], ['delta', 2], ['delta', 1.5],
@@ -1011,6 +1080,7 @@ def live_scenarios(rng, tier):
 def scenarios(rng, tier):
     yield from edge_scenarios()
     yield from ctrl_scenarios(rng, tier)
+    yield from reg_scenarios()
     yield from pipe_scenarios(rng, tier)
     yield from delta_scenarios(rng, tier)
     yield from live_scenarios(rng, tier)
